@@ -4,6 +4,7 @@ CONSTANTS MaxRound = 3
  MaxHyps = 2
  N = 2
  EmitRejected = FALSE
+ ExtraInst = FALSE
  Focus = FALSE
 INVARIANT AllWellTyped
 
